@@ -443,6 +443,68 @@ pub fn scenarios(prop: &str, tier: &str) -> Vec<Arc<dyn Scenario>> {
             let bd = if quick { bs(2, 3, 0, 1, 1) } else { bs(3, 5, 0, 1, 2) };
             v.push(std("C19-blob", TreeCfg::small(keys.clone()).with_blob(16), ab, bd, vec![vec![]], OracleKind::C19));
         }
+        "C08" | "C09" => {
+            use crate::blobmc::{Blob, Kind};
+            use crate::driver::BlobCfg;
+            let kind = if prop == "C08" { Kind::C08 } else { Kind::C09 };
+            let mut a = Alphabet::core();
+            a.put_big = true;
+            a.snap = true;
+            a.no_unsnap = prop == "C08";
+            a.movedown = vec![(0, 1)];
+            a.pulldown = vec![(0, 1)];
+            a.major = vec![1, u64::MAX];
+            a.flush_sealed = false;
+            if prop == "C09" {
+                a.drop_ranges = vec![
+                    (Bnd::Inc(b"a".to_vec()), Bnd::Inc(b"a".to_vec())),
+                    (Bnd::Unb, Bnd::Unb),
+                ];
+                a.ingests = vec![vec![(0, IKind::BigVal)], vec![(0, IKind::Tomb), (1, IKind::BigVal)]];
+                a.clear = true;
+            }
+            let mk = |threshold: u32, file_target: u64, staleness: f32, age_cutoff: f32| {
+                let mut c = TreeCfg::small(keys_ab());
+                c.blob = Some(BlobCfg { threshold, file_target, staleness, age_cutoff });
+                c
+            };
+            let mut push = |name: String, cfg: TreeCfg, alpha: &Alphabet, bd: Budget, seeds: Vec<Vec<Op>>| {
+                v.push(Arc::new(Blob { name, cfg, alphabet: alpha.clone(), budget: bd, seeds, kind }) as Arc<dyn Scenario>);
+            };
+            if quick {
+                push(format!("{prop}-t16-aggressive"), mk(16, 1, 0.0, 1.0), &a, bs(2, 2, 1, 1, 1), seeds_upto(1));
+                push(format!("{prop}-t16-default"), mk(16, 64 << 20, 0.25, 0.25), &a, bs(2, 2, 1, 1, 1), vec![vec![]]);
+                push(format!("{prop}-t1"), mk(1, 64 << 20, 0.25, 1.0), &a, bs(2, 2, 0, 1, 1), vec![vec![]]);
+                if prop == "C08" {
+                    push(format!("{prop}-t1000"), mk(1000, 64 << 20, 0.25, 0.25), &a, bs(2, 1, 1, 1, 0), vec![vec![]]);
+                }
+            } else {
+                for th in [1u32, 16, 1000] {
+                    for ft in [1u64, 64 << 20] {
+                        for st in [0.0f32, 0.25, 1.0] {
+                            for ac in [0.25f32, 1.0] {
+                                if prop == "C09" && th == 1000 {
+                                    continue;
+                                }
+                                push(format!("{prop}-t{th}-f{ft}-s{st}-a{ac}"), mk(th, ft, st, ac), &a, bs(2, 2, 1, 1, 1), seeds_upto(1));
+                            }
+                        }
+                    }
+                }
+                push(format!("{prop}-t16-aggressive-33"), mk(16, 1, 0.0, 1.0), &a, bs(3, 3, 1, 1, 1), vec![vec![]]);
+            }
+            if prop == "C09" {
+                // compaction filter on the blob tree: Remove on a, ReplaceBig on b
+                use crate::cfilter::VerdictSpec;
+                let mut c = mk(16, 1, 0.0, 1.0);
+                c.filter_verdicts = Some(vec![VerdictSpec::Remove, VerdictSpec::ReplaceBig]);
+                let mut af = a.clone();
+                af.drop_ranges.clear();
+                af.ingests.clear();
+                af.clear = false;
+                push(format!("{prop}-filter"), c, &af, if quick { bs(2, 2, 0, 0, 0) } else { bs(3, 2, 0, 1, 0) }, seeds_upto(1));
+            }
+        }
         "C13" => {
             let mut a = Alphabet::core();
             a.wdel_discipline = true;
